@@ -920,4 +920,127 @@ Section Parse.
     - unfold build_gsub1. rewrite Hcd. rewrite map_fst_combine by auto.
       rewrite sort_uniq_ascending by auto. rewrite map_get_combine by auto. reflexivity.
   Qed.
+
+  (* ---- the end of the stream: GPOS descriptions do not end in "\n" ---- *)
+  Definition norm (ts : list token) : list token :=
+    match ts with [t] => if is_syn_eof endl t then [] else ts | _ => ts end.
+
+  Lemma norm_idem : forall ts, norm (norm ts) = norm ts.
+  Proof.
+    intros [|t [|t' r]]; cbn; auto. destruct (is_syn_eof endl t) eqn:E; cbn; auto. rewrite E. reflexivity.
+  Qed.
+
+  Lemma peek_norm_typ : forall ts, ttyp (peek_tok endl (norm ts)) = ttyp (peek_tok endl ts).
+  Proof.
+    intros [|t [|t' r]]; cbn; auto. destruct (is_syn_eof endl t) eqn:E; cbn; auto.
+    unfold is_syn_eof in E. repeat (apply andb_true_iff in E; destruct E as [E ?]).
+    destruct (ttyp t); cbn in E; try discriminate. reflexivity.
+  Qed.
+
+  Lemma read_unread : forall ts,
+    read endl ts = POk (peek_tok endl ts, tl ts) /\ unread endl (peek_tok endl ts) (tl ts) = POk (tt, norm ts).
+  Proof.
+    intros [|t [|t' r]]; cbn; split; auto.
+    - unfold is_syn_eof. cbn. rewrite N.eqb_refl. reflexivity.
+    - destruct (is_syn_eof endl t); reflexivity.
+  Qed.
+
+  Lemma optional_miss_n : forall ty ts, ityp_eqb (ttyp (peek_tok endl ts)) ty = false ->
+    optional endl ty ts = POk (false, norm ts).
+  Proof.
+    intros ty ts H. destruct (read_unread ts) as [R W]. unfold optional, bind. rewrite R, H, W. reflexivity.
+  Qed.
+
+  Lemma norm_cons2 : forall t t' r, norm (t :: t' :: r) = t :: t' :: r.
+  Proof. reflexivity. Qed.
+
+  Lemma norm_cons_ne : forall t r, ityp_eqb (ttyp t) TEOF = false -> norm (t :: r) = t :: r.
+  Proof. intros t [|t' r] H; cbn; auto. unfold is_syn_eof. rewrite H. reflexivity. Qed.
+
+  (* ---- value records ---- *)
+  Lemma read_int16_hit : forall z l ts, int16_ok z = true ->
+    read_int16 endl (tk TInt (digits_signed z) l :: ts) = POk (z, ts).
+  Proof.
+    intros z l ts H. unfold read_int16, bind, read. cbn [ttyp ityp_eqb tval].
+    rewrite atoi_digits_signed. unfold int16_ok in H.
+    assert (E : ((z <? -32768)%Z || (32767 <? z)%Z) = false) by lia. rewrite E. reflexivity.
+  Qed.
+
+  Lemma rvl_x : forall f v z l ts, int16_ok z = true ->
+    read_value_loop endl (S f) v (tk TIdent k_x l :: tk TInt (digits_signed z) l :: ts)
+    = read_value_loop endl f (mkV z (v_y v) (v_dx v)) ts.
+  Proof.
+    intros. cbn [read_value_loop]. unfold bind at 1. cbn [read]. 
+    change (is_ident (tk TIdent k_x l) k_x) with true. cbv iota.
+    unfold bind at 1. rewrite read_int16_hit by auto. reflexivity.
+  Qed.
+  Lemma rvl_y : forall f v z l ts, int16_ok z = true ->
+    read_value_loop endl (S f) v (tk TIdent k_y l :: tk TInt (digits_signed z) l :: ts)
+    = read_value_loop endl f (mkV (v_x v) z (v_dx v)) ts.
+  Proof.
+    intros. cbn [read_value_loop]. unfold bind at 1. cbn [read].
+    change (is_ident (tk TIdent k_y l) k_x) with false.
+    change (is_ident (tk TIdent k_y l) k_y) with true. cbv iota.
+    unfold bind at 1. rewrite read_int16_hit by auto. reflexivity.
+  Qed.
+  Lemma rvl_dx : forall f v z l ts, int16_ok z = true ->
+    read_value_loop endl (S f) v (tk TIdent k_dx l :: tk TInt (digits_signed z) l :: ts)
+    = read_value_loop endl f (mkV (v_x v) (v_y v) z) ts.
+  Proof.
+    intros. cbn [read_value_loop]. unfold bind at 1. cbn [read].
+    change (is_ident (tk TIdent k_dx l) k_x) with false.
+    change (is_ident (tk TIdent k_dx l) k_y) with false.
+    change (is_ident (tk TIdent k_dx l) k_dx) with true. cbv iota.
+    unfold bind at 1. rewrite read_int16_hit by auto. reflexivity.
+  Qed.
+
+  Lemma is_ident_typ : forall t s, ityp_eqb (ttyp t) TIdent = false -> is_ident t s = false.
+  Proof. intros t s H. unfold is_ident. rewrite H. reflexivity. Qed.
+
+  Lemma rvl_end : forall f v ts0, ityp_eqb (ttyp (peek_tok endl ts0)) TIdent = false ->
+    read_value_loop endl (S f) v ts0 = POk (v, norm ts0).
+  Proof.
+    intros f v ts0 H. destruct (read_unread ts0) as [R W]. cbn [read_value_loop]. unfold bind at 1.
+    rewrite R. rewrite !is_ident_typ by auto. unfold bind. rewrite W. reflexivity.
+  Qed.
+
+  Lemma value_ok : forall a l fuel ts0,
+    vrec_ok a = true -> ityp_eqb (ttyp (peek_tok endl ts0)) TIdent = false ->
+    (length (value_toks a l) < fuel)%nat ->
+    exists ts', read_value_record endl fuel (value_toks a l ++ ts0) = POk (a, ts') /\ norm ts' = norm ts0.
+  Proof.
+    intros a l fuel ts0 Hv Ht Hf. destruct a as [v|].
+    2:{ exists ts0. split; auto. reflexivity. }
+    cbn [vrec_ok] in Hv. repeat (apply andb_true_iff in Hv; destruct Hv as [Hv ?]).
+    apply negb_true_iff in Hv. exists (norm ts0). split; [|apply norm_idem].
+    unfold read_value_record, value_toks in *. destruct v as [x y dx]. cbn [v_x v_y v_dx] in *.
+    destruct (x =? 0)%Z eqn:Ex, (y =? 0)%Z eqn:Ey, (dx =? 0)%Z eqn:Ed; cbn [andb] in Hv; try discriminate;
+      cbn [app is_nil] in *;
+      (unfold bind at 1; rewrite optional_ident_miss by reflexivity);
+      unfold bind at 1.
+    - destruct fuel as [|[|fu]]; try (cbn in Hf; lia).
+      rewrite rvl_dx by auto. rewrite rvl_end by auto. unfold ret, vrec_norm. cbn [v_x v_y v_dx mkV].
+      rewrite Ed. apply Z.eqb_eq in Ex, Ey. subst. reflexivity.
+    - destruct fuel as [|[|fu]]; try (cbn in Hf; lia).
+      rewrite rvl_y by auto. rewrite rvl_end by auto. unfold ret, vrec_norm. cbn [v_x v_y v_dx mkV].
+      rewrite Ey. apply Z.eqb_eq in Ex, Ed. subst. reflexivity.
+    - destruct fuel as [|[|[|fu]]]; try (cbn in Hf; lia).
+      rewrite rvl_y by auto. rewrite rvl_dx by auto. rewrite rvl_end by auto.
+      unfold ret, vrec_norm. cbn [v_x v_y v_dx mkV].
+      rewrite Ey. apply Z.eqb_eq in Ex. subst. reflexivity.
+    - destruct fuel as [|[|fu]]; try (cbn in Hf; lia).
+      rewrite rvl_x by auto. rewrite rvl_end by auto. unfold ret, vrec_norm. cbn [v_x v_y v_dx mkV].
+      rewrite Ex. apply Z.eqb_eq in Ey, Ed. subst. reflexivity.
+    - destruct fuel as [|[|[|fu]]]; try (cbn in Hf; lia).
+      rewrite rvl_x by auto. rewrite rvl_dx by auto. rewrite rvl_end by auto.
+      unfold ret, vrec_norm. cbn [v_x v_y v_dx mkV].
+      rewrite Ex. apply Z.eqb_eq in Ey. subst. reflexivity.
+    - destruct fuel as [|[|[|fu]]]; try (cbn in Hf; lia).
+      rewrite rvl_x by auto. rewrite rvl_y by auto. rewrite rvl_end by auto.
+      unfold ret, vrec_norm. cbn [v_x v_y v_dx mkV].
+      rewrite Ex. apply Z.eqb_eq in Ed. subst. reflexivity.
+    - destruct fuel as [|[|[|[|fu]]]]; try (cbn in Hf; lia).
+      rewrite rvl_x by auto. rewrite rvl_y by auto. rewrite rvl_dx by auto. rewrite rvl_end by auto.
+      unfold ret, vrec_norm. cbn [v_x v_y v_dx mkV]. rewrite Ex. reflexivity.
+  Qed.
 End Parse.
